@@ -14,7 +14,7 @@ from vf.driver import Harness
 PROPERTY = "C08"
 OUTCOMES = ["success", "failure", "error", "skip", "xfail", "uxsuccess"]
 TARGETS = ["py26", "py27", "extended", "twisted", "testtools.TestResult", "TestByTestResult"]
-TOPS = ["none", "ETOD", "Multi(1)", "Multi(2)", "TestResultDecorator", "Tagger"]
+TOPS = ["none", "ETOD", "Multi(1)", "Multi(2)", "TestResultDecorator", "Tagger(+tg)", "Tagger(-a)"]
 BOTTOMS = ["ETOD", "Multi(1)", "Multi(2)"]
 TESTOBJ = ["TestCase", "PlaceHolder", "ErrorHolder"]
 DETAIL_TEXT = "détail-text"
@@ -73,6 +73,8 @@ def build_stack(top, bottom, tkind):
         cur = TestResultDecorator(cur)
     elif top == 5:
         cur = Tagger(cur, {"tg"}, set())
+    elif top == 6:
+        cur = Tagger(cur, set(), {"a"})       # a tagger that only removes a tag
     return cur, targets
 
 
@@ -147,6 +149,8 @@ def run_history(top, bottom, tkind, tobj, ntests, o1, d1, o2, d2, extras):
     try:
         if extras & 1:
             res.startTestRun()
+        if extras & 4:
+            res.tags({"a", "b"}, set())          # run-level tags
         for n, (oi, dt) in enumerate(plan):
             test = make_test(tobj, n)
             tests.append(test)
@@ -154,7 +158,7 @@ def run_history(top, bottom, tkind, tobj, ntests, o1, d1, o2, d2, extras):
                 res.time(tokens[2 * n])
             res.startTest(test)
             if extras & 4:
-                res.tags({"a"}, set())
+                res.tags({"c"}, set())           # test-local tag
             if extras & 2:
                 res.time(tokens[2 * n + 1])
             call_outcome(res, test, OUTCOMES[oi], dt)
@@ -185,7 +189,7 @@ def run_history(top, bottom, tkind, tobj, ntests, o1, d1, o2, d2, extras):
                     problems.append("callback %d: test/status %r, expected %s" % (n, c["status"], BTB_STATUS[OUTCOMES[oi]]))
                 if extras & 2 and (c["start_time"] != tokens[2 * n] or c["stop_time"] != tokens[2 * n + 1]):
                     problems.append("callback %d: times %r..%r" % (n, c["start_time"], c["stop_time"]))
-                want_tags = ({"a"} if extras & 4 else set()) | ({"tg"} if top == 5 else set())
+                want_tags = (({"a", "b", "c"} if extras & 4 else set()) | ({"tg"} if top == 5 else set())) - ({"a"} if top == 6 else set())
                 if set(c["tags"]) != want_tags:
                     problems.append("callback %d: tags %r, expected %r" % (n, c["tags"], want_tags))
                 if dt and not any(DETAIL_TEXT in x.as_text() for x in (c["details"] or {}).values()):
@@ -225,12 +229,12 @@ def run_history(top, bottom, tkind, tobj, ntests, o1, d1, o2, d2, extras):
 def h_hist(top: int, bottom: int, tkind: int, tobj: int, ntests: int, o1: int, d1: bool, o2: int, d2: bool,
            extras: int, mode: int) -> bool:
     """
-    pre: 0 <= top < 6 and 0 <= bottom < 3 and 0 <= tkind < 6 and 0 <= tobj < 3 and 1 <= ntests <= 2
+    pre: 0 <= top < 7 and 0 <= bottom < 3 and 0 <= tkind < 6 and 0 <= tobj < 3 and 1 <= ntests <= 2
     pre: 0 <= o1 < 6 and 0 <= o2 < 6 and 0 <= extras < 32 and 0 <= mode < 2
     post: _
     """
     try:
-        v = dict(top=ch.sel("top", top, 6), bottom=ch.sel("bottom", bottom, 3), tkind=ch.sel("tkind", tkind, 6),
+        v = dict(top=ch.sel("top", top, 7), bottom=ch.sel("bottom", bottom, 3), tkind=ch.sel("tkind", tkind, 6),
                  tobj=ch.sel("tobj", tobj, 3), ntests=ch.sel("ntests", ntests, 3), o1=ch.sel("o1", o1, 6),
                  d1=ch.cbool(d1))
         if v["ntests"] < 1:
@@ -257,7 +261,7 @@ EXTRAS4 = [0, 31, 7, 24]
 
 def _shards(tier):
     out = []
-    for top in range(6):
+    for top in range(7):
         for b in range(3):
             for tk in range(6):
                 if tier == "quick":
@@ -280,7 +284,7 @@ def _rh(top, bottom, tkind, tobj, ntests, o1, d1, o2, d2, extras, mode):
 HARNESSES = [
     Harness("hist", h_hist, _shards,
             bounds={"quick": "adapter stacks of depth 1..2 (top in {none, ExtendedToOriginalDecorator, MultiTestResult fan-out 1 / 2, "
-                             "TestResultDecorator, Tagger} over bottom in {ExtendedToOriginalDecorator, MultiTestResult fan-out 1 / 2}) x "
+                             "TestResultDecorator, Tagger adding a tag, Tagger removing a tag} over bottom in {ExtendedToOriginalDecorator, MultiTestResult fan-out 1 / 2}) x "
                              "6 target flavours (2.6, 2.7, extended, Twisted doubles, testtools.TestResult, TestByTestResult) x test object "
                              "{TestCase, PlaceHolder, ErrorHolder} x histories of one test (6 outcomes x exc_info|details x 4 "
                              "combinations of startTestRun/stopTestRun, time, tags, stop, progress+done: none, all, run+time+tags, "
